@@ -120,6 +120,7 @@ type Gen struct {
 	loopPreClk  *Term // clock when the loop being framed was entered
 	heapClk     map[*Term]*Term // heap component version -> clock when it was written
 	freshRefs   map[*Term]bool  // objects allocated by this function that have not escaped yet
+	iptrs       []*iptrInst     // first-class pointers to scalar fields seen so far
 	quietEpoch  bool            // the current write goes to a non-escaped fresh object
 	mergeCases  map[*Term][]*mergeCase // reach constant of a join block -> incoming cases
 	callOrd     map[string]int
@@ -193,6 +194,7 @@ func (g *Gen) reset() {
 		g.refComps = map[string]bool{}
 	}
 	g.freshRefs = map[*Term]bool{}
+	g.iptrs = nil
 	g.mergeCases = map[*Term][]*mergeCase{}
 	g.usedCallAssumes = map[*Clause]bool{}
 	g.preCallOrd = map[string]int{}
@@ -527,6 +529,18 @@ func (g *Gen) load(st *State, a *Addr, ty types.Type) Val {
 		case RObj:
 			h = g.heapGet(st, name, g.compSort(RObj, lf.Sort))
 			r = Select(h, a.Ref)
+			if len(a.Path) == 0 && len(g.iptrs) > 0 {
+				for _, in := range g.iptrs {
+					if "O:"+typeStr(in.ElemT) == name && in.P != a.Ref {
+						fs := g.compSort(RObj, lf.Sort)
+						r = Ite(Eq(a.Ref, in.P), Select(g.heapGet(st, in.Comp, fs), in.Owner), r)
+					} else if in.P == a.Ref && "O:"+typeStr(in.ElemT) == name {
+						fs := g.compSort(RObj, lf.Sort)
+						r = Select(g.heapGet(st, in.Comp, fs), in.Owner)
+						break
+					}
+				}
+			}
 		case RElem:
 			h = g.heapGet(st, name, g.compSort(RElem, lf.Sort))
 			r = Select(Select(h, a.Ref), a.Idx)
@@ -642,6 +656,14 @@ func (g *Gen) store(st *State, a *Addr, ty types.Type, v Val) {
 		case RObj:
 			s := g.compSort(RObj, lf.Sort)
 			g.heapSet(st, name, s, Store(g.heapGet(st, name, s), a.Ref, lv.T))
+			if len(a.Path) == 0 {
+				for _, in := range g.iptrs {
+					if "O:"+typeStr(in.ElemT) == name {
+						fh := g.heapGet(st, in.Comp, s)
+						g.heapSet(st, in.Comp, s, Store(fh, in.Owner, Ite(Eq(a.Ref, in.P), lv.T, Select(fh, in.Owner))))
+					}
+				}
+			}
 		case RElem:
 			s := g.compSort(RElem, lf.Sort)
 			h := g.heapGet(st, name, s)
@@ -680,8 +702,61 @@ func (g *Gen) firstClass(v Val, what string) Val {
 	if v.A.Root == RObj && len(v.A.Path) == 0 {
 		return scalar(v.A.Ref, v.Ty)
 	}
+	if p := g.interiorPtr(v); p != nil {
+		return scalar(p, v.Ty)
+	}
 	g.unsupported("interior pointer used as a first-class value (%s)", what)
 	return scalar(g.fresh("iptr", SInt), v.Ty)
+}
+
+// iptrInst: a first-class pointer to a scalar field of an object. The pointer is the
+// value of an injective function of the owner (one function per field component);
+// loads and stores through any pointer of the pointee type are redirected to the field
+// when the pointer equals it (see load/store), so the alias is exact.
+type iptrInst struct {
+	P     *Term
+	Owner *Term
+	A     *Addr // the field (Root RObj, Ref Owner, Path non-empty)
+	ElemT types.Type
+	Comp  string // the field's heap component
+}
+
+func (g *Gen) interiorPtr(v Val) *Term {
+	a := v.A
+	if a == nil || a.Root != RObj || len(a.Path) == 0 || a.Ref == nil {
+		return nil
+	}
+	et := typeAt(a.RootT, a.Path)
+	lvs := leavesOf(et)
+	if len(lvs) != 1 || lvs[0].Path != "" {
+		return nil
+	}
+	if _, ok := et.Underlying().(*types.Basic); !ok {
+		return nil
+	}
+	comp := g.compName(a, lvs[0])
+	for _, in := range g.iptrs {
+		if in.Comp == comp && in.Owner == a.Ref {
+			return in.P
+		}
+	}
+	fn := "vp_iptr!" + comp
+	p := App(fn, SInt, a.Ref)
+	// like any reference the function was handed: non-nil here, not younger than the entry
+	g.assume(Gt(p, IntLit(0)))
+	if g.entry != nil && g.entry.Clk != nil {
+		g.assume(Le(p, g.entry.Clk))
+	}
+	for _, in := range g.iptrs {
+		if in.Comp == comp {
+			g.assume(Implies(Eq(in.P, p), Eq(in.Owner, a.Ref)))
+		} else {
+			g.assume(Ne(in.P, p))
+		}
+	}
+	g.iptrs = append(g.iptrs, &iptrInst{P: p, Owner: a.Ref, A: a, ElemT: et, Comp: comp})
+	g.Assumed["memory model: a pointer to a field (&x.f as a value) aliases exactly that field; other pointers of the type alias it only when equal to it"] = true
+	return p
 }
 
 func (g *Gen) nilCheck(st *State, v Val, pos token.Pos, what string) {
